@@ -17,6 +17,7 @@ From Coq Require Import List NArith Bool String.
 From Coq Require Import Permutation.
 From GoGit Require Import Base.Out Model.Status Model.IndexOps Spec.GitStatus Spec.GitIndexOps Proofs.C27 Proofs.C28 Proofs.C28Tree.
 From GoGit Require Import Proofs.C28Add Proofs.C28AddCor.
+From GoGit Require Import Model.CommitHead Spec.GitCommitHead Proofs.C28Head.
 Import ListNotations.
 Local Open Scope N_scope.
 
@@ -87,6 +88,65 @@ Theorem C28_commit_files : forall s,
   existsb symlink_meta (st_index s) = false -> g_commit s = Some (g_commit_files s).
 Proof. intros s H. unfold g_commit. now rewrite H. Qed.
 Print Assumptions C28_commit_files.
+
+(* --- commit: parents and the reference update.  For every repository state (HEAD
+   symbolic or detached, branch born or not, any commit table) and options
+   without explicit parents: Commit fails / creates the commit with exactly the
+   parents git commit records, and advances the branch HEAD names (creating it
+   when unborn) or HEAD itself when detached — under the guard: no merge in
+   progress, the index is empty iff its tree is the empty tree, an amended
+   commit is not a merge *)
+Theorem C28_commit_head : forall r o tree idx_empty,
+  commit_head_guard r o tree idx_empty = true ->
+  g_commit_head r o tree idx_empty = s_commit_head r o tree.
+Proof. exact commit_head_eq. Qed.
+Print Assumptions C28_commit_head.
+
+(* what a successful Commit does to the references: the commit's first parent is
+   the old HEAD (or HEAD's parents when amending), and only the reference HEAD
+   designates changes *)
+Theorem C28_commit_head_update : forall r o tree e t ps r',
+  g_commit_head r o tree e = COk t ps r' ->
+  t = tree /\ r' = update_head r NEW /\ head_of r' = Some NEW /\
+  (r_sym r = true -> r_detached r' = r_detached r) /\ (r_sym r = false -> r_branch r' = r_branch r) /\
+  (o_amend o = false -> o_parents o = [] -> ps = match head_of r with Some h => [h] | None => [] end).
+Proof.
+  intros r o tree e t ps r'. unfold g_commit_head.
+  destruct (o_all o && o_amend o); [discriminate|].
+  destruct (o_amend o && negb (is_nil (o_parents o))); [discriminate|].
+  set (P := if o_amend o then _ else _). destruct P as [err|ps0] eqn:EP; [discriminate|].
+  destruct (is_nil ps0 && e && negb (o_allow_empty o)); [discriminate|].
+  set (Q := match ps0 with [] => _ | _ => _ end). destruct Q as [err|pt]; [discriminate|].
+  destruct ((tree =? pt) && negb (o_allow_empty o)); [discriminate|].
+  intros H. inversion H; subst. repeat split.
+  - unfold update_head, head_of. destruct (r_sym r); reflexivity.
+  - intros S. unfold update_head. rewrite S. reflexivity.
+  - intros S. unfold update_head. rewrite S. reflexivity.
+  - intros A Pn. subst P. rewrite A, Pn in EP. now inversion EP.
+Qed.
+Print Assumptions C28_commit_head_update.
+
+(* a merge in progress: go-git records one parent, git two *)
+Theorem C28_commit_merge_head_refuted : exists r o tree,
+  g_commit_head r o tree false = COk tree [1] (update_head r NEW) /\
+  s_commit_head r o tree = COk tree [1; 3] (update_head r NEW).
+Proof. exists (mk_repo 1 1 1 true), (mkOpts false false false []), 2. split; reflexivity. Qed.
+Print Assumptions C28_commit_merge_head_refuted.
+
+(* amending a merge commit without changing its tree: go-git refuses, git accepts *)
+Theorem C28_commit_amend_merge_refuted : exists r o tree,
+  g_commit_head r o tree false = CErr EEmpty /\ s_commit_head r o tree = COk tree [2; 4] (update_head r NEW).
+Proof. exists (mk_repo 1 3 1 false), (mkOpts false true false []), 1. split; reflexivity. Qed.
+Print Assumptions C28_commit_amend_merge_refuted.
+
+Example C28_commit_head_inhabited :
+  commit_head_guard (mk_repo 0 0 1 false) (mkOpts false false false []) 2 false = true /\
+  commit_head_guard (mk_repo 2 2 1 false) (mkOpts false true false []) 2 false = true /\
+  g_commit_head (mk_repo 0 0 1 false) (mkOpts false false false []) 2 false =
+    COk 2 [] (mkRepo true (Some NEW) None [] None) /\
+  (exists r', g_commit_head (mk_repo 2 2 1 false) (mkOpts false true false []) 2 false = COk 2 [2] r' /\
+              r_detached r' = Some NEW /\ r_branch r' = Some 1).
+Proof. vm_compute. repeat split; try reflexivity. eexists. repeat split; reflexivity. Qed.
 
 (* --- rm of a tracked file that is not a directory in the worktree *)
 Theorem C28_rm_file_eq : forall s p,
